@@ -121,7 +121,7 @@ func c16Round3(c *Ctx) {
 	n := 0
 	for _, pk := range []string{"storage/mkvs/node", "storage/mkvs/syncer", "storage/mkvs/writelog", "storage/mkvs/checkpoint", "storage/mkvs/db/api"} {
 		for _, fn := range c.P.FuncsInPkg(pk) {
-			for _, b := range fn.Blocks {
+			for _, b := range blocksIP(fn) {
 				for _, in := range b.Instrs {
 					bo, ok := in.(*ssa.BinOp)
 					if !ok || (bo.Op != token.ADD && bo.Op != token.MUL && bo.Op != token.SHL && bo.Op != token.SUB) {
@@ -155,7 +155,7 @@ func c16Round3(c *Ctx) {
 	if fn := c.needFn("C16.alloc", "consensus/cometbft/roothash.(*ServiceClient).DeliverExecutorCommitment"); fn != nil {
 		c.Analysed[fname(fn)] = true
 		var bad ssa.Instruction
-		for _, b := range fn.Blocks {
+		for _, b := range blocksIP(fn) {
 			for _, in := range b.Instrs {
 				switch x := in.(type) {
 				case *ssa.MapUpdate:
